@@ -461,7 +461,7 @@ def build(eng, fixture, window, confname="default"):
     lines = read_fixture(fixture)
     slines = sym_lines(eng, lines, window) if eng.symbolic or window is not None else lines
     conf = get_conf2(confname)
-    oFile = vhdlFile_pkg.vhdlFile(slines)
+    oFile = vhdlFile_pkg.vhdlFile(slines, configuration=conf)
     oFile.set_indent_map(conf.dIndent)
     rl = rule_list.rule_list(oFile, conf.severity_list)
     rl.configure(conf)
@@ -515,13 +515,18 @@ def _flip_conf(kind):
                     dd[k] = 2
             if dd:
                 rules[r.unique_id] = dd
+    if kind == "flipG":
+        # user-ordered pragma patterns (single before open/close, as a user may well write them); precedence must not depend on the order
+        pats = base.dConfig["pragma"]["patterns"]
+        d["pragma"] = {"patterns": {"single": list(pats["single"]), "open": list(pats["open"]), "close": list(pats["close"])}}
+        config.add_pragma_regular_expressions(d)
     d["rule"] = rules
     c.dConfig = d
     return c
 
 
 def get_conf2(name):
-    if name in ("flipA", "flipB", "flipC", "flipD", "flipE", "flipF"):
+    if name in ("flipA", "flipB", "flipC", "flipD", "flipE", "flipF", "flipG"):
         if name not in _CONF:
             _CONF[name] = _flip_conf(name)
         return _CONF[name]
@@ -608,7 +613,7 @@ def pipeline(eng, p):
         slines = sym_lines(eng, lines, tuple(window) if window else None)
     conf = get_conf2(confname)
     clauses = []
-    oFile = vhdlFile_pkg.vhdlFile(slines)
+    oFile = vhdlFile_pkg.vhdlFile(slines, configuration=conf)
     oFile.set_indent_map(conf.dIndent)
     if prop in ("C04", "C05"):
         emitted = oFile.get_lines()[1:]
@@ -635,7 +640,7 @@ def pipeline(eng, p):
         # every reporting rule alone on a fresh parse reports the same (no dependence on the rules analysed before it)
         reporting = sorted(set(v[0] for v in v1))[: p.get("max_solo", 6)]
         for uid in reporting:
-            o2 = vhdlFile_pkg.vhdlFile(slines)
+            o2 = vhdlFile_pkg.vhdlFile(slines, configuration=conf)
             o2.set_indent_map(conf.dIndent)
             rl2 = rule_list.rule_list(o2, conf.severity_list)
             rl2.configure(conf)
@@ -663,7 +668,7 @@ def pipeline(eng, p):
         from vsg import exceptions as _exc
 
         try:
-            o2 = vhdlFile_pkg.vhdlFile(list(y1))
+            o2 = vhdlFile_pkg.vhdlFile(list(y1), configuration=conf)
         except _exc.ClassifyError:
             clauses.append(("%s:fixed_text_is_accepted" % prop, False))
             return clauses
@@ -923,7 +928,7 @@ def purity(eng, p):
     conf = get_conf2(confname)
     base_roles(fixture)  # warm the harness's own cache outside the measured region
     s0 = global_state()
-    oFile = vhdlFile_pkg.vhdlFile(slines, sFilename=fixture)
+    oFile = vhdlFile_pkg.vhdlFile(slines, sFilename=fixture, configuration=conf)
     oFile.set_indent_map(conf.dIndent)
     rl = rule_list.rule_list(oFile, conf.severity_list)
     rl.configure(conf)
@@ -1514,3 +1519,141 @@ def make_L20():
 
 
 L20 = make_L20()
+
+
+# ---------------------------------------------------------------- C17: the emitted configuration reproduces the run on VHDL input
+import io as _io
+import sys as _sys2
+
+import vsg.__main__  # noqa: F401,E402
+
+_MAINMOD = _sys2.modules["vsg.__main__"]
+_EMITTED = {}
+
+
+class _ExitNow(Exception):
+    pass
+
+
+def emitted_conf(confname):
+    """configuration `confname` written by the real --output_configuration (json.dump) and read back by the real reader (yaml), no style"""
+    if confname in _EMITTED:
+        return _EMITTED[confname]
+    conf = get_conf2(confname)
+    files = {}
+
+    class Sink(_io.StringIO):
+        def __init__(self, name):
+            super().__init__()
+            self.name_ = name
+
+        def close(self):
+            files[self.name_] = self.getvalue()
+            super().close()
+
+        def __exit__(self, *a):
+            self.close()
+            return False
+
+    cla = CLA()
+    cla.output_configuration = "oc.json"
+    cla.filename = []
+    saved = (_MAINMOD.__dict__.get("open"), _MAINMOD.sys)
+
+    class S:
+        @staticmethod
+        def exit(code=0):
+            raise _ExitNow()
+
+    _MAINMOD.open = lambda n, mode="r", *a, **k: Sink(n)
+    _MAINMOD.sys = S
+    try:
+        try:
+            _MAINMOD.generate_output_configuration(cla, conf)
+        except _ExitNow:
+            pass
+    finally:
+        if saved[0] is None:
+            _MAINMOD.__dict__.pop("open", None)
+        else:
+            _MAINMOD.open = saved[0]
+        _MAINMOD.sys = saved[1]
+    real_open = config.__dict__.get("open")
+    config.open = lambda n, *a, **k: _io.StringIO(files[n]) if n in files else open(n, *a, **k)
+    try:
+        c2 = config.New(CLA(configuration=["oc.json"]))
+    finally:
+        if real_open is None:
+            config.__dict__.pop("open", None)
+        else:
+            config.open = real_open
+    _EMITTED[confname] = c2
+    return c2
+
+
+def run_conf(slines, conf):
+    o = vhdlFile_pkg.vhdlFile(list(slines), configuration=conf)
+    o.set_indent_map(conf.dIndent)
+    rl = rule_list.rule_list(o, conf.severity_list)
+    rl.configure(conf)
+    rl.check_rules(bAllPhases=True)
+    before = sorted_v(violations_of(rl))
+    rl.clear_violations()
+    rl.fix()
+    text = o.get_lines()[1:]
+    rl.clear_violations()
+    rl.check_rules(bAllPhases=True)
+    return before, text, sorted_v(violations_of(rl))
+
+
+def emitted_pipeline(eng, p):
+    fixture, window, confname = p["fixture"], p.get("window"), p.get("conf", "default")
+    lines = read_fixture(fixture)
+    slines = sym_lines(eng, lines, tuple(window) if window else None)
+    c1 = get_conf2(confname)
+    c2 = emitted_conf(confname)
+    v1, t1, w1 = run_conf(slines, c1)
+    v2, t2, w2 = run_conf(slines, c2)
+    return [("C17:same_violations_under_emitted_configuration", list_eq(v1, v2)), ("C17:same_fixed_text_under_emitted_configuration", Eq(list(t1), list(t2))),
+            ("C17:same_report_after_fix_under_emitted_configuration", list_eq(w1, w2))]
+
+
+def make_L17():
+    class L17(Harness):
+        name = "L17"
+        prop = "C17"
+        parallel_params = True
+        per_clause_findings = True
+        title = "the configuration written by the real --output_configuration and read back with no style gives the same violations, the same fixed text and the same report after fixing on corpus files"
+        functions = ("vsg.__main__", "vsg.config", "vsg.rule_list", "vsg.rule", "vsg.rules", "vsg.vhdlFile")
+        stubs = ("open() in vsg.__main__ / vsg.config captured in memory; sys.exit intercepted",)
+        assumptions = L01.assumptions
+        bounds = "corpus fixtures (quick 24, thorough 240, plus the pragma fixtures under a user-ordered pragma pattern section) x configuration in {default, jcl, indent_only, flipA..flipG} x a one-line case-symbolic window"
+        outside = "configurations outside the eight listed; pragma pattern sections other than the default"
+        min_conclusive_share = 0.5
+        exception_props = ("C17", "C19")
+
+        def params(self, tier):
+            seed = int(os.environ.get("VERIF_SEED", "0") or 0) % NSEEDS
+            rnd = random.Random(17100 + seed)
+            n = 24 if tier == "quick" else 240
+            confs = ["default", "jcl", "indent_only", "flipA", "flipB", "flipC", "flipD", "flipE", "flipF", "flipG"]
+            out = [{"prop": "C17", "fixture": f, "window": None, "conf": "flipG", "_limits": {"shard_paths": 16}} for f in ALL_FIXTURES if "/pragma__" in f][:6]
+            for k, f in enumerate(rnd.sample(ALL_FIXTURES, n)):
+                cl = code_lines(f)
+                lo = rnd.choice(cl) if cl else None
+                out.append({"prop": "C17", "fixture": f, "window": [lo, lo] if lo is not None else None, "conf": confs[k % len(confs)], "_limits": {"shard_paths": 16}})
+            return out
+
+        def run(self, eng, p):
+            return emitted_pipeline(eng, p)
+
+        def describe(self, values, p):
+            return l_describe(values, p)
+
+        signature = staticmethod(l_signature)
+
+    return register(L17)
+
+
+L17 = make_L17()
